@@ -237,7 +237,7 @@ def R2b_linspace(ctx):
         ok = i is not None and i[0] == "call" and itm(i[1], "next") and contains(i[2][0], lambda s: s == rng)
         if ok:
             A = Arith(F, symbols={("arg", 1): "x0", ("arg", 2): "xend", ("arg", 3): "n"})
-            prev = ("call", VIDX, (X, ("field", ("bin", "SubWithOverflow", i, ("const", "usize", 1)), "0")))
+            prev = ("call", VIDX, (X, ("bin", "Sub", i, ("const", "usize", 1))))
             A.symbols[prev] = "xprev"
             got = A.ev(val)
             S = lambda n: Ratio(Poly.sym(n))
@@ -282,7 +282,7 @@ def R3_weights(ctx):
         errs = [r for r in rows if result_variant(r.ret) != "Ok"]
         point = (lambda a: ("arg", 2)) if n == 1 else (lambda a: ("index", ("arg", 2), ("const", "usize", a)))
         L = [("call", FNI, (("field", ("arg", 1), AXES[a]), point(a))) for a in range(n)]
-        Uu = [("field", ("bin", "AddWithOverflow", L[a], ("const", "usize", 1)), "0") for a in range(n)]
+        Uu = [("bin", "Add", L[a], ("const", "usize", 1)) for a in range(n)]
         symbols = {}
         for a in range(n):
             symbols[("call", VIDX, (("field", ("arg", 1), AXES[a]), L[a]))] = "g%sl" % AXES[a]
@@ -397,7 +397,7 @@ def R3b_nd(ctx):
             dim = g[2][1]
         ok = dim is not None and dim[0] == "call" and itm(dim[1], "next")
         if ok:
-            A = Arith(F, symbols={p: "p", ("call", VIDX, (g, l)): "gl", ("call", VIDX, (g, ("field", ("bin", "AddWithOverflow", l, ("const", "usize", 1)), "0"))): "gu"})
+            A = Arith(F, symbols={p: "p", ("call", VIDX, (g, l)): "gl", ("call", VIDX, (g, ("bin", "Add", l, ("const", "usize", 1)))): "gu"})
             got = A.ev(frac[0])
             S = lambda nm: Ratio(Poly.sym(nm))
             ok = got.equals((S("p") - S("gl")) / (S("gu") - S("gl")))
@@ -429,9 +429,9 @@ def R3b_nd(ctx):
                 return s[0][2][1] if s else None
             i0, i1 = perm_index(reads[0]), perm_index(reads[1])
             lo, up = (reads[0], reads[1])
-            if i0 is not None and i0[0] == "field" and i0[1][0] == "bin":
+            if i0 is not None and i0[0] == "bin":
                 lo, up, i0, i1 = reads[1], reads[0], i1, i0
-            okb = okb and i1 is not None and i1[0] == "field" and i1[1][0] == "bin" and i1[1][1] == "AddWithOverflow" and i1[1][3] == i0 and i1[1][2][0] == "call" and i1[1][2][1].endswith("::len")
+            okb = okb and i1 is not None and i1[0] == "bin" and i1[1] == "Add" and i1[3] == i0 and i1[2][0] == "call" and i1[2][1].endswith("::len")
             A = Arith(F, symbols={lo: "vl", up: "vu"})
             got = A.ev(v)
             others = sorted(s for s in got_symbols(got) if s not in ("vl", "vu"))
@@ -635,14 +635,14 @@ def R5_index_search(ctx):
             ctx.check(nl == LO and is_mid(nh), "step:arr[mid]>=t=>high=mid", "when arr[mid] >= target the step is not (low, high) := (low, mid): low'=%s high'=%s" % (short(nl)[:80], short(nh)[:80]), b.where(), detail="high = mid")
         elif lt and not ge:
             seen.add("lt")
-            okl = nh == HI and nl[0] == "field" and nl[1][0] == "bin" and nl[1][1] == "AddWithOverflow" and is_mid(nl[1][2]) and nl[1][3] == ("const", "usize", 1)
+            okl = nh == HI and nl[0] == "bin" and nl[1] == "Add" and is_mid(nl[2]) and nl[3] == ("const", "usize", 1)
             ctx.check(okl, "step:arr[mid]<t=>low=mid+1", "when arr[mid] < target the step is not (low, high) := (mid+1, high): low'=%s high'=%s" % (short(nl)[:80], short(nh)[:80]), b.where(), detail="low = mid + 1")
         else:
             ctx.bad("step:unrecognised", "an iteration path does not compare arr[mid] with the target (facts %s)" % [short(("bin",) + f)[:80] for f in r.facts], b.where())
     ctx.check(seen == {"ge", "lt"}, "step:both-branches", "the loop body does not have both the >= and the < step", b.where())
     e_lo, e_hi = nosite(deep_strip(loop_entry_value(b, h, lo))), nosite(deep_strip(loop_entry_value(b, h, hi)))
     ln = ("call", "std::slice::<impl [T]>::len", (("arg", 1),))
-    ctx.check(e_lo == ("const", "usize", 0) and e_hi == ("field", ("bin", "SubWithOverflow", ln, ("const", "usize", 1)), "0"), "entry:low=0,high=len-1", "the search does not start with (0, len-1): (%s, %s)" % (short(e_lo), short(e_hi)), b.where(), detail="(0, len-1)")
+    ctx.check(e_lo == ("const", "usize", 0) and e_hi == ("bin", "Sub", ln, ("const", "usize", 1)), "entry:low=0,high=len-1", "the search does not start with (0, len-1): (%s, %s)" % (short(e_lo), short(e_hi)), b.where(), detail="(0, len-1)")
     # exits
     exits = {"adjust": 0, "keep>0": 0, "keep=0": 0}
     for r in rets:
@@ -658,7 +658,7 @@ def R5_index_search(ctx):
             continue
         if pos and ge:
             exits["adjust"] += 1
-            ctx.check(pay == ("field", ("bin", "SubWithOverflow", LO, ("const", "usize", 1)), "0"), "exit:low>0&&arr[low]>=t=>low-1", "returns %s" % short(rv)[:80], b.where(), detail="low - 1")
+            ctx.check(pay == ("bin", "Sub", LO, ("const", "usize", 1)), "exit:low>0&&arr[low]>=t=>low-1", "returns %s" % short(rv)[:80], b.where(), detail="low - 1")
         elif pos and lt:
             exits["keep>0"] += 1
             ctx.check(pay == LO, "exit:arr[low]<t=>low", "returns %s" % short(rv)[:80], b.where(), detail="low")
@@ -676,7 +676,7 @@ def R5_index_search(ctx):
             continue
         eq = ("Eq", ("arg", 2), ("call", "std::slice::<impl [T]>::last", (("arg", 1),))) in r.facts or ("Eq", ("call", "std::slice::<impl [T]>::last", (("arg", 1),)), ("arg", 2)) in r.facts
         if eq and result_variant(r.ret) == "Ok":
-            okl = agg_payload(r.ret) == ("field", ("bin", "SubWithOverflow", ln, ("const", "usize", 2)), "0")
+            okl = agg_payload(r.ret) == ("bin", "Sub", ln, ("const", "usize", 2))
         if is_err_value(r.ret):
             okn = True
     ctx.check(okl, "pre:t==last=>len-2", "the upper boundary does not map to the last cell (len-2)", b.where(), detail="t == arr.last => len-2")
